@@ -30,7 +30,7 @@ ASSUMPTIONS = [
 ]
 SHARDS = {"quick": 6, "thorough": 16}
 MIN_REACH = {
-    "points_selected": {"quick": 2500, "thorough": 25000},
+    "points_selected": {"quick": 2500, "thorough": 60000},
     "df_rows_checked": {"quick": 400, "thorough": 5000},
     "calls_logged": {"quick": 3000, "thorough": 30000},
 }
@@ -101,7 +101,7 @@ def _gen(rng, entry):
 
 def cases(ctx):
     rng = ctx.rng("cases")
-    n = ctx.pick(700, 7000)
+    n = ctx.pick(700, 16000)
     for i in range(n):
         pool = ENTRIES_DF if i % 4 == 3 else ENTRIES_DS
         yield _gen(rng, pool[(i // 4) % len(pool)] if i % 4 != 3 else pool[(i // 4) % len(pool)])
